@@ -224,7 +224,8 @@ func (s *Standalone) applyLoginRateLimit(w http.ResponseWriter, r *http.Request,
 
 	attempts += 1
 	c = cookie.Make(cookie.LoginCount, strconv.Itoa(attempts), opts)
-	c.MaxAge = int(window.Seconds())
+	// a Max-Age of zero is not serialised (the counter would become a session cookie that never lapses)
+	c.MaxAge = max(1, int(window.Seconds()))
 	cookie.Set(w, c)
 	span.SetAttributes(attribute.Int("login.attempts", attempts))
 	return nil
